@@ -24,7 +24,7 @@ import numpy as np
 from .. import common as C
 
 HEADER = ("From Coq Require Import List Arith Bool ZArith QArith Qcanon.\nImport ListNotations.\n"
-          "Require Import NV.C09.Model NV.C09.ModelSHT.\nOpen Scope Q_scope.\n")
+          "Require Import NV.C09.Model NV.C09.ModelSHT NV.C09.ModelSeq.\nOpen Scope Q_scope.\n")
 
 MODES = ["TIMES", "ADJ", "INV", "ADJINV"]
 CONVS = ["non_canonical_hartley", "canonical_hartley"]
@@ -574,6 +574,139 @@ def sht_packing_terms(ctx):
     return terms, meta
 
 
+# ---------------------------------------------------------------------------------------------------
+# operation SEQUENCES in one process: every step is compared with the model / reference evaluated on
+# that step's arguments alone (operators must not remember anything from earlier constructions or calls)
+# ---------------------------------------------------------------------------------------------------
+
+def gauss_kernel(shape, dist, sigma):
+    """exp(-2 pi^2 sigma^2 |k|^2) on the harmonic grid, from the step's own arguments (numpy only)."""
+    k2 = np.zeros(shape)
+    for a, (nn, d) in enumerate(zip(shape, dist)):
+        j = np.arange(nn)
+        ka = np.minimum(j, nn - j) / (nn * d)
+        sh = [1] * len(shape)
+        sh[a] = nn
+        k2 = k2 + (ka ** 2).reshape(sh)
+    return np.exp(-2 * np.pi ** 2 * float(sigma) ** 2 * k2).reshape(-1)
+
+
+def gen_sequences(ctx):
+    """Lists of steps.  Smoothing steps share one RGSpace (possibly embedded in different DomainTuples) and
+    differ in sigma / convention; operator steps reuse one operator object under changing conventions;
+    backend steps reuse one array shape with the backends' conventions switched in between."""
+    rng = ctx.rng(95)
+    seqs = []
+
+    def sm(shape, dist, sigma, conv, before=(), after=()):
+        return {"kind": "smoothing", "before": list(before), "shape": shape, "dist": dist, "after": list(after),
+                "sigma": sigma, "conv": conv, "seed": int(rng.integers(0, 2 ** 31))}
+    u2, r2 = ["u", 2], ["rg", [2], [0.5]]
+    seqs.append([sm([4, 2], [0.5, 2.0], 0.5, CONVS[0]), sm([4, 2], [0.5, 2.0], 1.25, CONVS[0]),
+                 sm([4, 2], [0.5, 2.0], 0.0, CONVS[1]), sm([4, 2], [0.5, 2.0], 0.25, CONVS[1], before=[u2]),
+                 sm([4, 2], [0.5, 2.0], 0.5, CONVS[0], after=[r2]), sm([4, 2], [0.5, 2.0], 2.0, CONVS[1])])
+    seqs.append([sm([4], [0.25], 1.0, CONVS[1]), sm([4], [0.25], 0.3, CONVS[1], before=[u2]),
+                 sm([4], [0.25], 0.3, CONVS[0]), sm([4], [0.25], 0.05, CONVS[0])])
+    seqs.append([sm([5, 3], [0.7, 1.3], 0.3, CONVS[0]), sm([5, 3], [0.7, 1.3], 1.1, CONVS[1]),
+                 sm([5, 3], [0.7, 1.3], 2.5, CONVS[0], before=[u2]), sm([5, 3], [0.7, 1.3], 0.3, CONVS[1])])
+    # operators: same domain, built once, applied under alternating conventions and modes
+    base = {"before": [u2], "shape": [4, 2], "dist": [0.5, 0.25], "harm": False, "after": []}
+    order = [("hartley", "TIMES", 0), ("fft", "TIMES", 1), ("hartley", "INV", 1), ("hartley", "ADJ", 0),
+             ("fft", "ADJINV", 0), ("hartley", "ADJINV", 1), ("hartley", "TIMES", 1), ("fft", "INV", 0)]
+    seqs.append([dict(base, kind="op_reuse", op=o, mode=m, conv=CONVS[c], seed=int(rng.integers(0, 2 ** 31)))
+                 for o, m, c in order])
+    # oracle-only: dense operator cases and backend cases on one grid with the convention changing in between
+    seqs.append([dict(base, kind="op", op=o, conv=CONVS[c], seed=7 + i, shape=[3, 2], dist=[0.7, 1.1])
+                 for i, (o, c) in enumerate([("hartley", 0), ("hartley", 1), ("fft", 1), ("hartley", 0)])]
+                + [{"kind": "backend", "shape": [3, 4, 2], "axes": ax, "seed": 3 + i} for i, ax in enumerate([[0, 1], [1, 2], [0, 1, 2], [1]])])
+    return seqs
+
+
+class SeqRunner:
+    """Executes the steps of one sequence on the real implementation, keeping operator objects alive."""
+
+    def __init__(self):
+        self.ops = {}
+
+    def op_reuse(self, step):
+        key = json.dumps([step["op"], step["before"], step["shape"], step["dist"], step["harm"], step["after"]])
+        if key not in self.ops:
+            with Conv(step["conv"]):
+                self.ops[key] = build_op(step)
+        return self.ops[key]
+
+
+def sequence_terms(ctx):
+    """Coq terms for the sequences: each step against the model on the step's own arguments."""
+    ift = quiet()
+    rng = ctx.rng(96)
+    terms, meta = [], []
+    for si, seq in enumerate(gen_sequences(ctx)):
+        run = SeqRunner()
+        for ti, step in enumerate(seq):
+            m = {"kind": "sequence", "seq": si, "step": ti, "what": step["kind"]}
+            try:
+                if step["kind"] == "smoothing" and all(n in (1, 2, 4) for n in step["shape"]):
+                    B, N, A = geom(step)
+                    with Conv(step["conv"]):
+                        doms = [mk_sub(s) for s in step["before"]]
+                        space = len(doms)
+                        doms.append(ift.RGSpace(tuple(step["shape"]), distances=tuple(step["dist"])))
+                        doms += [mk_sub(s) for s in step["after"]]
+                        op = ift.HarmonicSmoothingOperator(tuple(doms), step["sigma"], space=space)
+                        dom = ift.DomainTuple.make(tuple(doms))
+                        x = dyadic_vec(rng, B * N * A, False)
+                        y = op(ift.Field.from_raw(dom, x.reshape(dom.shape))).asnumpy().reshape(-1)
+                    ker = gauss_kernel(step["shape"], step["dist"], step["sigma"])
+                    q = lambda v: C.clist([C.cq(float(t)) for t in v])
+                    terms.append("check_smooth %s %s %d%%nat %s %s %d%%nat %s %s %s" % (
+                        TOLP, C.cbool(step["conv"] == CONVS[0]), B, cnats(step["shape"]), q(step["dist"]), A,
+                        q(ker), q(x), q(y)))
+                    meta.append(m)
+                elif step["kind"] == "op_reuse":
+                    op = run.op_reuse(step)
+                    B, N, A = geom(step)
+                    x = dyadic_vec(rng, B * N * A, True)
+                    with Conv(step["conv"]):
+                        y = apply_op(op, step["mode"], x)
+                    terms.append(coq_case_term(step, step["mode"], step["conv"], x, y))
+                    meta.append(m)
+            except Exception as e:
+                terms.append("false")
+                meta.append(dict(m, error=repr(e)[:200]))
+    return terms, meta
+
+
+def sequence_failures(case):
+    """Direct oracle for a sequence: every step must satisfy the property on its own arguments, in order."""
+    out = []
+    run = SeqRunner()
+    for ti, step in enumerate(case["steps"]):
+        if step["kind"] == "op_reuse":
+            op = run.op_reuse(step)
+            B, N, A = geom(step)
+            shape, dist = step["shape"], np.array(step["dist"], dtype=float)
+            dd = float(np.prod(dist))
+            dt = float(np.prod(1.0 / (np.array(shape) * dist)))
+            if step["op"] == "fft":
+                K = dft_matrix(shape)
+                T, Ti = dd * (np.conj(K) if step["harm"] else K), dt * (K if step["harm"] else np.conj(K))
+            else:
+                H = hartley_matrix(shape, step["conv"])
+                T, Ti = dd * H, dt * H
+            T, Ti = lift(T, B, A), lift(Ti, B, A)
+            ref = {"TIMES": T, "ADJ": T.conj().T, "INV": Ti, "ADJINV": Ti.conj().T}[step["mode"]]
+            with Conv(step["conv"]):
+                M, _ = dense(op, step["mode"], B * N * A, True)
+            if np.abs(M - ref).max() > TOL * max(1.0, np.abs(ref).max()):
+                out.append(("sequence_matrix_" + step["mode"], "step %d: a reused %s operator differs from the reference for the "
+                            "convention in force at call time" % (ti, step["op"])))
+        else:
+            for name, detail in case_failures(step):
+                out.append((name, "step %d of a sequence in one process: %s" % (ti, detail)))
+    return out
+
+
 def case_failures(case):
     k = case.get("kind", "op")
     if k == "op":
@@ -586,11 +719,16 @@ def case_failures(case):
         return smoothing_failures(case)
     if k == "config":
         return config_alias_failures()
+    if k == "sequence":
+        return sequence_failures(case)
     raise ValueError(k)
 
 
 def signature(case, name):
     k = case.get("kind", "op")
+    if k == "sequence":
+        kinds = sorted({st["kind"] for st in case["steps"]})
+        return {"fn": "sequence:" + "+".join(kinds), "check": name}
     fn = {"op": {"fft": "FFTOperator.apply", "hartley": "HartleyOperator.apply"}.get(case.get("op")),
           "backend": "ducc_dispatch/re.hartley", "sht": "SHTOperator.apply",
           "smoothing": "HarmonicSmoothingOperator", "config": "nifty.config.update"}[k]
@@ -697,12 +835,18 @@ class C09(C.Check):
         pt, pm = sht_packing_terms(ctx)
         checks += pt
         meta += pm
+        st, sm_ = sequence_terms(ctx)
+        checks += st
+        meta += sm_
         bad = C.eval_cases(self.prop, "corr_p%d" % os.getpid(), HEADER, checks, shard=200, jobs=4)
         hints = []
         for i in bad[:4]:
-            res.add_broken("correspondence", "harmonic operators vs coq/C09/Model.v (exact)" if meta[i]["kind"] != "sht_packing"
-                           else "SHTOperator packing vs coq/C09/ModelSHT.v", meta[i])
+            res.add_broken("correspondence", "SHTOperator packing vs coq/C09/ModelSHT.v" if meta[i]["kind"] == "sht_packing"
+                           else "operation sequence in one process vs the model on each step's own arguments" if meta[i]["kind"] == "sequence"
+                           else "harmonic operators vs coq/C09/Model.v (exact)", meta[i])
         for i in bad:
+            if meta[i]["kind"] == "sequence":
+                continue            # the sequences are always part of the oracle's cases
             if meta[i]["kind"] == "sht_packing":
                 hints.append({"kind": "sht", "grid": "gl", "lmax": meta[i]["lmax"], "mmax": meta[i]["mmax"]})
             else:
@@ -725,7 +869,7 @@ class C09(C.Check):
         dist = {}
         for m in meta:
             key = (m["case"]["op"] + ":" + m["mode"] if m["kind"] == "exact" else
-                   "kernel:" + m["fn"] if m["kind"] == "kernel" else "sht_packing:" + m["what"])
+                   "kernel:" + m["fn"] if m["kind"] == "kernel" else m["kind"] + ":" + m["what"])
             dist[key] = dist.get(key, 0) + 1
         res.coverage.update({
             "evaluations": len(checks), "distinct_nontrivial": distinct,
@@ -756,6 +900,8 @@ class C09(C.Check):
         for i in range((4 if ctx.quick else 30) * budget):
             cases.append(random_backend_case(rng, i))
         cases.append({"kind": "config"})
+        for seq in gen_sequences(ctx):
+            cases.append({"kind": "sequence", "steps": seq})
         sht = [{"kind": "sht", "grid": "gl", "lmax": 2, "mmax": 2}, {"kind": "sht", "grid": "gl", "lmax": 3, "mmax": 1},
                {"kind": "sht", "grid": "hp", "nside": 2, "lmax": 3, "mmax": 2},
                {"kind": "sht", "grid": "gl", "lmax": 0, "mmax": 0}]
